@@ -22,15 +22,14 @@ def idReq (c : Conn) : Msg := Msg.identity c.src.nid c.intended
 
 /-- Invariant of one connection. -/
 def ConnOK (c : Conn) : Prop :=
-  (c.pooled = true → c.lib = true ∧ c.dstate = .idle) ∧
+  (c.pooled = true → c.lib = true ∧ ∃ n, c.dstate = .verified n) ∧
   (c.lib = true →
     c.intended.cid = c.src.cid ∧
     (c.dstate = .dialed → c.wrote = []) ∧
     (Verified c ∨ c.wrote = [] ∨ c.wrote = [idReq c]) ∧
     (∀ m ∈ c.inbox, m = idReq c ∨ Verified c) ∧
     (Resp.idOk ∈ c.outbox → Verified c) ∧
-    (c.dstate = .idle → Verified c) ∧
-    (∀ k, c.dstate = .awaitResp k → Verified c))
+    (∀ n, c.dstate = .verified n → Verified c))
 
 /-- the fields of a connection that describe the wire, not its state -/
 def SameWire (c c' : Conn) : Prop :=
@@ -66,9 +65,9 @@ theorem sendIdentity_ok (h : ConnOK c) : ConnOK c.sendIdentity := by
   split
   · rename_i hg
     obtain ⟨hp, hl⟩ := h
-    obtain ⟨h1, h2, h3, h4, h5, h6, h7⟩ := hl hg.1
-    refine ⟨?_, fun _ => ⟨h1, ?_, ?_, ?_, h5, ?_, ?_⟩⟩
-    · intro hpool; have := hp hpool; simp_all
+    obtain ⟨h1, h2, h3, h4, h5, h6⟩ := hl hg.1
+    refine ⟨?_, fun _ => ⟨h1, ?_, ?_, ?_, h5, ?_⟩⟩
+    · intro hpool; obtain ⟨_, n, hn⟩ := hp hpool; rw [hg.2] at hn; cases hn
     · intro hd; simp at hd
     · right; right; simp [h2 hg.2, idReq]
     · intro m hm
@@ -76,8 +75,7 @@ theorem sendIdentity_ok (h : ConnOK c) : ConnOK c.sendIdentity := by
       rcases hm with hm | hm
       · exact h4 m hm
       · left; exact hm
-    · intro hd; simp at hd
-    · intro k hd; simp at hd
+    · intro n hd; simp at hd
   · exact h
 
 theorem sendIdentity_wire : SameWire c c.sendIdentity := by
@@ -88,27 +86,26 @@ theorem recvIdentity_ok (h : ConnOK c) : ConnOK c.recvIdentity := by
   split
   · rename_i hg
     obtain ⟨hp, hl⟩ := h
-    obtain ⟨h1, h2, h3, h4, h5, h6, h7⟩ := hl hg.1
-    have hnp : c.pooled = true → False := fun hpool => by have := hp hpool; simp_all
+    obtain ⟨h1, h2, h3, h4, h5, h6⟩ := hl hg.1
+    have hnp : c.pooled = true → False := fun hpool => by
+      obtain ⟨_, n, hn⟩ := hp hpool; rw [hg.2] at hn; cases hn
     split
     · rename_i r rest hout
       split
       · rename_i hr
         subst hr
         have hv : Verified c := h5 (by rw [hout]; simp)
-        refine ⟨fun hpool => (hnp hpool).elim, fun _ => ⟨h1, ?_, Or.inl hv, h4, fun _ => hv, fun _ => hv, fun _ _ => hv⟩⟩
+        refine ⟨fun hpool => (hnp hpool).elim, fun _ => ⟨h1, ?_, Or.inl hv, h4, fun _ => hv, fun _ _ => hv⟩⟩
         intro hd; simp at hd
-      · refine ⟨fun hpool => (hnp hpool).elim, fun _ => ⟨h1, ?_, h3, h4, ?_, ?_, ?_⟩⟩
+      · refine ⟨fun hpool => (hnp hpool).elim, fun _ => ⟨h1, ?_, h3, h4, ?_, ?_⟩⟩
         · intro hd; simp at hd
         · intro hm; exact h5 (by rw [hout]; exact List.mem_cons_of_mem _ hm)
-        · intro hd; simp at hd
-        · intro k hd; simp at hd
+        · intro n hd; simp at hd
     · split
       · exact ⟨hp, hl⟩
-      · refine ⟨fun hpool => (hnp hpool).elim, fun _ => ⟨h1, ?_, h3, h4, h5, ?_, ?_⟩⟩
+      · refine ⟨fun hpool => (hnp hpool).elim, fun _ => ⟨h1, ?_, h3, h4, h5, ?_⟩⟩
         · intro hd; simp at hd
-        · intro hd; simp at hd
-        · intro k hd; simp at hd
+        · intro n hd; simp at hd
   · exact h
 
 theorem recvIdentity_wire : SameWire c c.recvIdentity := by
@@ -129,34 +126,41 @@ theorem pop_wire : SameWire c c.pop := by
 theorem sendReq_ok (k : Kind) (h : ConnOK c) : ConnOK (c.sendReq k) := by
   unfold Conn.sendReq
   split
-  · rename_i hg
-    obtain ⟨hp, hl⟩ := h
-    obtain ⟨h1, h2, h3, h4, h5, h6, h7⟩ := hl hg.1
-    have hv : Verified c := h6 hg.2.1
-    refine ⟨?_, fun _ => ⟨h1, ?_, Or.inl hv, fun _ _ => Or.inr hv, fun _ => hv, fun _ => hv, fun _ _ => hv⟩⟩
-    · intro hpool; simp_all
-    · intro hd; simp at hd
+  · rename_i n hd
+    split
+    · rename_i hg
+      obtain ⟨hp, hl⟩ := h
+      obtain ⟨h1, h2, h3, h4, h5, h6⟩ := hl hg.1
+      have hv : Verified c := h6 n hd
+      refine ⟨?_, fun _ => ⟨h1, ?_, Or.inl hv, fun _ _ => Or.inr hv, fun _ => hv, fun _ _ => hv⟩⟩
+      · intro hpool
+        have : c.pooled = true := hpool
+        rw [hg.2] at this; cases this
+      · intro hd'; simp at hd'
+    · exact h
   · exact h
 
 theorem sendReq_wire (k : Kind) : SameWire c (c.sendReq k) := by
-  unfold Conn.sendReq; split <;> exact ⟨rfl, rfl, rfl, rfl, rfl, rfl⟩
+  unfold Conn.sendReq
+  repeat' split
+  all_goals exact ⟨rfl, rfl, rfl, rfl, rfl, rfl⟩
 
 theorem recvResp_ok (h : ConnOK c) : ConnOK c.recvResp := by
   unfold Conn.recvResp
   split
   · rename_i hg
     split
-    · rename_i k hd
+    · rename_i n hd
       obtain ⟨hp, hl⟩ := h
-      obtain ⟨h1, h2, h3, h4, h5, h6, h7⟩ := hl hg
-      have hv : Verified c := h7 k hd
-      have hnp : c.pooled = true → False := fun hpool => by have := hp hpool; simp_all
+      obtain ⟨h1, h2, h3, h4, h5, h6⟩ := hl hg.1
+      have hv : Verified c := h6 _ hd
+      have hnp : c.pooled = true → False := fun hpool => by rw [hg.2] at hpool; cases hpool
       split
-      · refine ⟨fun hpool => (hnp hpool).elim, fun _ => ⟨h1, ?_, Or.inl hv, h4, fun _ => hv, fun _ => hv, fun _ _ => hv⟩⟩
+      · refine ⟨fun hpool => (hnp hpool).elim, fun _ => ⟨h1, ?_, Or.inl hv, h4, fun _ => hv, fun _ _ => hv⟩⟩
         intro hd'; simp at hd'
       · split
         · exact ⟨hp, hl⟩
-        · refine ⟨fun hpool => (hnp hpool).elim, fun _ => ⟨h1, ?_, Or.inl hv, h4, fun _ => hv, fun _ => hv, fun _ _ => hv⟩⟩
+        · refine ⟨fun hpool => (hnp hpool).elim, fun _ => ⟨h1, ?_, Or.inl hv, h4, fun _ => hv, fun _ _ => hv⟩⟩
           intro hd'; simp at hd'
     · exact h
   · exact h
@@ -169,15 +173,20 @@ theorem recvResp_wire : SameWire c c.recvResp := by
 theorem returnConn_ok (room : Bool) (now : Nat) (h : ConnOK c) : ConnOK (c.returnConn room now) := by
   unfold Conn.returnConn
   split
-  · rename_i hg
-    obtain ⟨hp, hl⟩ := h
-    obtain ⟨h1, h2, h3, h4, h5, h6, h7⟩ := hl hg.1
-    have hv : Verified c := h6 hg.2.1
+  · rename_i n hd
     split
-    · exact ⟨fun _ => ⟨hg.1, hg.2.1⟩, fun _ => ⟨h1, h2, h3, h4, h5, h6, h7⟩⟩
-    · refine ⟨?_, fun _ => ⟨h1, ?_, Or.inl hv, h4, fun _ => hv, fun _ => hv, fun _ _ => hv⟩⟩
-      · intro hpool; simp_all
-      · intro hd; simp at hd
+    · rename_i hg
+      obtain ⟨hp, hl⟩ := h
+      obtain ⟨h1, h2, h3, h4, h5, h6⟩ := hl hg.1
+      have hv : Verified c := h6 n hd
+      split
+      · exact ⟨fun _ => ⟨hg.1, n, hd⟩, fun _ => ⟨h1, h2, h3, h4, h5, h6⟩⟩
+      · refine ⟨?_, fun _ => ⟨h1, ?_, Or.inl hv, h4, fun _ => hv, fun _ _ => hv⟩⟩
+        · intro hpool
+          have : c.pooled = true := hpool
+          rw [hg.2] at this; cases this
+        · intro hd'; simp at hd'
+    · exact h
   · exact h
 
 theorem returnConn_wire (room : Bool) (now : Nat) : SameWire c (c.returnConn room now) := by
@@ -189,11 +198,10 @@ theorem dialerClose_ok (h : ConnOK c) : ConnOK c.dialerClose := by
   unfold Conn.dialerClose
   obtain ⟨hp, hl⟩ := h
   refine ⟨fun hpool => by simp at hpool, fun hlib => ?_⟩
-  obtain ⟨h1, h2, h3, h4, h5, h6, h7⟩ := hl hlib
-  refine ⟨h1, ?_, h3, h4, h5, ?_, ?_⟩
+  obtain ⟨h1, h2, h3, h4, h5, h6⟩ := hl hlib
+  refine ⟨h1, ?_, h3, h4, h5, ?_⟩
   · intro hd; simp at hd
-  · intro hd; simp at hd
-  · intro k hd; simp at hd
+  · intro n hd; simp at hd
 
 theorem dialerClose_wire : SameWire c c.dialerClose := ⟨rfl, rfl, rfl, rfl, rfl, rfl⟩
 
@@ -207,16 +215,16 @@ theorem afterRead_ok (h : ConnOK c) : ConnOK c.afterRead := by
       split
       · rename_i hw
         refine ⟨hp, fun hlib => ?_⟩
-        obtain ⟨h1, h2, h3, h4, h5, h6, h7⟩ := hl hlib
+        obtain ⟨h1, h2, h3, h4, h5, h6⟩ := hl hlib
         have hv : Verified c := by
           rcases h4 (Msg.identity s want) (by rw [hin]; simp) with hm | hv
           · simp only [idReq, Msg.identity.injEq] at hm
             unfold Verified; rw [← hw, hm.2]
           · exact hv
-        exact ⟨h1, h2, h3, fun _ _ => Or.inr hv, fun _ => hv, h6, h7⟩
+        exact ⟨h1, h2, h3, fun _ _ => Or.inr hv, fun _ => hv, h6⟩
       · refine ⟨hp, fun hlib => ?_⟩
-        obtain ⟨h1, h2, h3, h4, h5, h6, h7⟩ := hl hlib
-        refine ⟨h1, h2, h3, ?_, ?_, h6, h7⟩
+        obtain ⟨h1, h2, h3, h4, h5, h6⟩ := hl hlib
+        refine ⟨h1, h2, h3, ?_, ?_, h6⟩
         · intro m hm; exact h4 m (by rw [hin]; exact List.mem_cons_of_mem _ hm)
         · intro hm
           simp only [List.mem_append, List.mem_singleton] at hm
@@ -225,8 +233,8 @@ theorem afterRead_ok (h : ConnOK c) : ConnOK c.afterRead := by
           · cases hm
     · rename_i k s rest hin
       refine ⟨hp, fun hlib => ?_⟩
-      obtain ⟨h1, h2, h3, h4, h5, h6, h7⟩ := hl hlib
-      refine ⟨h1, h2, h3, ?_, ?_, h6, h7⟩
+      obtain ⟨h1, h2, h3, h4, h5, h6⟩ := hl hlib
+      refine ⟨h1, h2, h3, ?_, ?_, h6⟩
       · intro m hm; exact h4 m (by rw [hin]; exact List.mem_cons_of_mem _ hm)
       · intro hm
         simp only [List.mem_append, List.mem_singleton] at hm
@@ -252,7 +260,7 @@ theorem readRecords_ok (i : Nat) (h : ConnOK c) : ∀ p ∈ c.readRecords i, Pro
       subst hp
       intro hlib
       obtain ⟨_, hl⟩ := h
-      obtain ⟨h1, _, _, h4, _, _, _⟩ := hl hlib
+      obtain ⟨h1, _, _, h4, _, _⟩ := hl hlib
       have hv : Verified c := by
         rcases h4 (Msg.req k s) (by rw [hin]; simp) with hm | hv
         · simp [idReq] at hm
@@ -379,11 +387,10 @@ theorem inv_dial (w : World) (d dest : Nat) (h : Inv w) : Inv (w.dial d dest) :=
   all_goals first
     | exact h
     | (apply inv_newConn _ _ _ h
-       refine ⟨fun hp => by simp at hp, fun _ => ⟨rfl, fun _ => rfl, Or.inr (Or.inl rfl), ?_, ?_, ?_, ?_⟩⟩
+       refine ⟨fun hp => by simp at hp, fun _ => ⟨rfl, fun _ => rfl, Or.inr (Or.inl rfl), ?_, ?_, ?_⟩⟩
        · intro m hm; cases hm
        · intro hm; cases hm
-       · intro hd; simp at hd
-       · intro k hd; simp at hd)
+       · intro n hd; simp at hd)
 
 theorem inv_rawDial (w : World) (a : Addr) (h : Inv w) : Inv (w.rawDial a) := by
   unfold World.rawDial
@@ -526,7 +533,7 @@ theorem mismatch_writes_nothing_else (w : World) (hw : Fresh w) (evs : List Ev) 
       (c.dstate = .dialed ∨ c.dstate = .awaitId ∨ c.dstate = .closed) := by
   intro c hc hlib hne
   obtain ⟨hp, hl⟩ := (inv_run w evs (inv_fresh w hw)).1 c hc
-  obtain ⟨_, _, h3, _, h5, h6, h7⟩ := hl hlib
+  obtain ⟨_, _, h3, _, h5, h6⟩ := hl hlib
   have hnv : ¬ Verified c := hne
   refine ⟨?_, ?_, fun hm => hnv (h5 hm), ?_⟩
   · rcases h3 with h3 | h3
@@ -534,12 +541,13 @@ theorem mismatch_writes_nothing_else (w : World) (hw : Fresh w) (evs : List Ev) 
     · exact h3
   · cases hpool : c.pooled with
     | false => rfl
-    | true => exact absurd (h6 (hp hpool).2) hnv
+    | true =>
+      obtain ⟨_, n, hn⟩ := hp hpool
+      exact absurd (h6 n hn) hnv
   · cases hd : c.dstate with
     | dialed => exact Or.inl rfl
     | awaitId => exact Or.inr (Or.inl rfl)
-    | idle => exact absurd (h6 hd) hnv
-    | awaitResp k => exact absurd (h7 k hd) hnv
+    | verified n => exact absurd (h6 n hd) hnv
     | closed => exact Or.inr (Or.inr rfl)
 
 /-- **handshake_isolation (c)** — on such a connection, reading the identity response (or the end of the
@@ -661,9 +669,9 @@ theorem conn_wire_immutable_run (w : World) (evs : List Ev) (i : Nat) (c : Conn)
     exact ⟨c2, h2, SameWire.trans w1 w2⟩
 
 theorem pooled_conn_identity_stable (w : World) (hw : Fresh w) (evs : List Ev) :
-    -- (2) pooled ⇒ library connection, idle, verified for the pool's identity
+    -- (2) pooled ⇒ library connection, in the verified state, attached to the pool's identity
     (∀ c ∈ (run w evs).conns, c.pooled = true →
-        c.lib = true ∧ c.dstate = .idle ∧ c.lident = c.intended ∧ c.intended.cid = c.src.cid) ∧
+        c.lib = true ∧ (∃ n, c.dstate = .verified n) ∧ c.lident = c.intended ∧ c.intended.cid = c.src.cid) ∧
     -- (3) processed ⇒ by the process the connection was dialled to, whose identity is the one recorded
     (∀ p ∈ (run w evs).processed, ∃ c, (run w evs).conns[p.conn]? = some c ∧
         p.pid = c.lpid ∧ p.listener = c.lident ∧ p.intended = c.intended ∧ p.lib = c.lib) ∧
@@ -674,9 +682,9 @@ theorem pooled_conn_identity_stable (w : World) (hw : Fresh w) (evs : List Ev) :
   refine ⟨?_, ?_, ?_⟩
   · intro c hc hpool
     obtain ⟨hp, hl⟩ := hinv.1 c hc
-    obtain ⟨hlib, hidle⟩ := hp hpool
-    obtain ⟨h1, _, _, _, _, h6, _⟩ := hl hlib
-    exact ⟨hlib, hidle, h6 hidle, h1⟩
+    obtain ⟨hlib, n, hidle⟩ := hp hpool
+    obtain ⟨h1, _, _, _, _, h6⟩ := hl hlib
+    exact ⟨hlib, ⟨n, hidle⟩, h6 n hidle, h1⟩
   · intro p hp
     obtain ⟨c, hc, e1, e2, e3, e4, _⟩ := hinv.2.2 p hp
     exact ⟨c, hc, e2, e3, e4, e1⟩
@@ -790,6 +798,15 @@ example :
     let r3 := doRPC w2 0 1 .append
     let r4 := doRPC r3.world 0 1 .append
     r3.err = .ioErr ∧ r4.err = .identityErr ∧ r4.world.processed.length = 1 := by decide
+
+/-- replication.go pipelines: two append requests are written before the first response is read; both reach
+(7,1), the connection goes back to the pool with nothing outstanding -/
+example :
+    let g := getConn (step exWorld (.addrUpdate 0 1 0)) 0 1
+    let w := run g.world [.sendReq 0 .append, .sendReq 0 .append, .listenerRead 0, .listenerRead 0,
+      .recvResp 0, .recvResp 0, .returnConn 0]
+    g.conn = some 0 ∧ w.processed.map (fun p => (p.kind, p.listener)) = [(.append, ⟨7, 1⟩), (.append, ⟨7, 1⟩)] ∧
+    w.conns.map (fun c => (c.dstate, c.pooled)) = [(.verified 0, true)] := by decide
 
 /-! ## Part 2 — the directory lock, SetIdentity, New, Serve -/
 
